@@ -116,9 +116,13 @@ def _eligible(fn: ast.AST, is_method: bool) -> Optional[str]:
     for n in ast.walk(fn):
         if n is fn:
             continue
-        if isinstance(n, (ast.FunctionDef, ast.AsyncFunctionDef, ast.ClassDef, ast.Lambda, ast.Yield, ast.YieldFrom, ast.Global, ast.Nonlocal,
+        if isinstance(n, (ast.FunctionDef, ast.AsyncFunctionDef, ast.ClassDef, ast.Yield, ast.YieldFrom, ast.Global, ast.Nonlocal,
                           ast.Await)):
             return type(n).__name__
+        if isinstance(n, ast.Lambda):
+            la = n.args
+            if {x.arg for x in la.args + la.kwonlyargs + la.posonlyargs} & params or la.vararg or la.kwarg:
+                return 'lambda shadows a parameter'
         if isinstance(n, ast.Name) and isinstance(n.ctx, (ast.Store, ast.Del)) and n.id in params:
             return f'parameter {n.id} re-bound'
         if isinstance(n, ast.Name) and n.id == 'super':
@@ -245,6 +249,32 @@ def _inline_at(caller: ast.AST, stmt: ast.stmt, call: ast.Call, helper: ast.Func
     def is_none(v):
         return v is None or (isinstance(v, ast.Constant) and v.value is None)
 
+    direct = getattr(stmt, 'value', None) is call and not isinstance(stmt, (ast.AugAssign, ast.AnnAssign))
+    if not direct:
+        if not _nested_ok(stmt, call, helper):
+            return None
+        ret = new_body[-1].value
+
+        # stmt is replaced by a copy in which the call is the helper's returned expression (the original node stays untouched)
+        marker = clone(stmt)
+        # locate the call in the clone by position in a parallel walk
+        for a_, b_ in zip(ast.walk(stmt), ast.walk(marker)):
+            if a_ is call:
+                target_in_clone = b_
+                break
+        else:
+            return None
+
+        class R2(ast.NodeTransformer):
+            def visit_Call(self, c):
+                if c is target_in_clone:
+                    return ret
+                return self.generic_visit(c)
+        new_stmt = R2().visit(marker)
+        pre = new_body[:-1]
+        _reorder_lines(pre, stmt.lineno)
+        return pre + [new_stmt]
+
     if isinstance(stmt, ast.Expr):
         def mk(v, like):        # value discarded by the caller: keep the evaluation
             return ast.copy_location(ast.Pass() if is_none(v) else ast.Expr(value=v), like)
@@ -295,7 +325,36 @@ def _call_site(fn: ast.AST, name: str, is_method: bool) -> Optional[Tuple[ast.st
             return st, call, f.value.id
         if not is_method and isinstance(f, ast.Name) and f.id == name:
             return st, call, ''
+    # a call nested in the expression of a simple statement (`row += _token(line) + ', '`)
+    for st in ast.walk(fn):
+        if not isinstance(st, (ast.Expr, ast.Assign, ast.AugAssign, ast.AnnAssign, ast.Return)):
+            continue
+        for call in ast.walk(st):
+            if not isinstance(call, ast.Call):
+                continue
+            f = call.func
+            if is_method and isinstance(f, ast.Attribute) and f.attr == name and isinstance(f.value, ast.Name):
+                return st, call, f.value.id
+            if not is_method and isinstance(f, ast.Name) and f.id == name:
+                return st, call, ''
     return None
+
+
+def _nested_ok(stmt: ast.stmt, call: ast.Call, helper: ast.FunctionDef) -> bool:
+    """The helper is straight-line (simple assignments, then `return <expr>`) and nothing else with a possible side effect is evaluated
+    in the statement before the call: every other call of the statement encloses it (so runs after it)."""
+    body = _strip_doc(helper.body)
+    if not body or not isinstance(body[-1], ast.Return) or body[-1].value is None:
+        return False
+    if not all(isinstance(s, ast.Assign) and len(s.targets) == 1 and isinstance(s.targets[0], ast.Name) for s in body[:-1]):
+        return False
+    for c in ast.walk(stmt):
+        if isinstance(c, ast.Call) and c is not call and not any(x is call for x in ast.walk(c)):
+            return False
+        if isinstance(c, (ast.Lambda, ast.ListComp, ast.SetComp, ast.DictComp, ast.GeneratorExp, ast.IfExp, ast.BoolOp)) \
+                and any(x is call for x in ast.walk(c)):
+            return False        # evaluated lazily, repeatedly or conditionally
+    return True
 
 
 def absorb_single_use_procedures(repo) -> List[str]:
